@@ -10,6 +10,13 @@
   depth"; `hashStruct mix htbl` is the generated `__hash__` for an ARBITRARY
   mixing function.  All general theorems hold for every table, every term of
   any depth and branching.
+
+  Scalar attributes are strings produced by the serialiser, which records the
+  TYPE AND BITS of every constant: in `SemEq` the constants `0`, `0.0`, `-0.0`,
+  `False` are four different attributes.  The real comparer uses Python's `==` on
+  constants and identifies them; `eq_iff_semEq` therefore speaks about terms in
+  which ==-equal constants are written identically (what the generators produce);
+  the harness batch `constants-python-identifies` probes the rest.
 -/
 import PtProofs.EqMemoLemmas
 import PtGen.EqTable
